@@ -286,7 +286,11 @@ def as_matrix(w, seed, spec):
     rng = np.random.default_rng(seed)
     fails = []
     for vshape, ad, shapes in [((3,), 0, [(3,), (3, 2)]), ((3,), -1, [(3,), (2, 3)]), ((2, 3), (0, 1), [(2, 3), (2, 3, 2)]),
-                               ((3, 2), (1, 0), [(2, 3)]), ((1, 3), (0, -1), [(2, 3), (4, 3)]), ((2,), 1, [(3, 2, 2)])]:
+                               ((3, 2), (1, 0), [(2, 3)]), ((1, 3), (0, -1), [(2, 3), (4, 3)]), ((2,), 1, [(3, 2, 2)]),
+                               # three and more value dimensions: permutations that are not their own inverse
+                               ((3, 4, 2), (1, 2, 0), [(2, 3, 4)]), ((4, 2, 3), (2, 0, 1), [(2, 3, 4)]),
+                               ((3, 4, 2), (-2, -1, -3), [(2, 3, 4)]), ((3, 3, 3), (2, 3, 1), [(2, 3, 3, 3)]),
+                               ((2, 3, 2), (-1, 0, 2), [(3, 5, 2, 2)])]:
         values = rng.standard_normal(vshape).astype(np.float32)
         structure = [S(s) for s in shapes]
         op = DiagonalOperator(jnp.asarray(values), axis_destination=ad, in_structure=structure)
